@@ -9,6 +9,8 @@ used by the enumerations, by the Hypothesis-driven generators and by replay:
          == getMasterScalars weighting == exact reference
   store  OnlineVarStoreBuilder / VarStoreInstancer / VarStore.optimize / subset_varidxes /
          prune_regions / compile+decompile keep every item's value at every location
+  mstore the same for OnlineMultiVarStoreBuilder / MultiVarStoreInstancer / MultiVarStore
+         subset_varidxes (which prunes regions) / compile+decompile
   iup    iup_delta == reference IUP; iup_delta_optimize stays within tolerance
   tv     TupleVariation.optimize keeps the represented deltas (and is never larger)
 
@@ -38,7 +40,8 @@ RULE = (
     "Models: generated master sets (1-4 axes, origin at a random index, on-axis, corner and off-axis masters, sparse "
     "sub-models, random axisOrder) x integer/Fraction value vectors, evaluated at every master and at lattice points. "
     "Stores: OnlineVarStoreBuilder over 1-3 (sub-)models with byte/word/long-word/zero rows, evaluated on the 1/4 "
-    "lattice (all points for <= 2 axes, masters + corners + 80 sampled for 3). Contours: 0-3 contours of 1-12 points "
+    "lattice (all points for <= 2 axes, masters + corners + 80 sampled for 3); OnlineMultiVarStoreBuilder stores with "
+    "1-4-component items likewise. Contours: 0-3 contours of 1-12 points "
     "with duplicate/collinear points, constant/affine/IUP-derived/random integer deltas, tolerances 0..10. "
     "Non-trivial: tent overlapping but not containing the new range; >= 3 masters incl. one off-axis; store with >= 2 "
     "VarData after optimisation; contour with >= 1 omitted delta. Distinct by full case fingerprint."
@@ -53,7 +56,7 @@ ASSUMPTIONS = [
     "quantization q > 1: every delta moves by at most q/2, so an item may move by at most (q/2) * sum of its region scalars at the location",
     "phantom points are not part of any contour: an un-referenced phantom point has delta 0",
 ]
-WALL_BUDGET = {"quick": 900, "thorough": 3 * 3600}
+WALL_BUDGET = {"quick": 1500, "thorough": 4 * 3600}  # ~45 s / ~13 min on 16 idle cores; generous because the box is shared
 
 AXES = ["wght", "wdth", "opsz", "slnt"]
 EPS = 1e-9
